@@ -4,6 +4,11 @@
 //	tsig replay <vectors.ndjson>             Gen_Tsig "sign" vectors and MC_Tsig "chain" behaviours -> real API
 //	tsig record <alter> <out.ndjson> <n>     signs with the real code, alters every bit / field / parameter,
 //	                                         logs the real verdict of every verification for Trace_Tsig
+//	tsig record <server> <out.ndjson> <n>    a real dns.Server (in-memory TCP listener and datagram socket) with a key table:
+//	                                         several signed / wrongly keyed / unsigned requests back to back on one
+//	                                         connection, handlers answering with one message, with several messages
+//	                                         (w.TsigTimersOnly(true)) or with Transfer.Out; request octets, the
+//	                                         TsigStatus the handler saw and every response's octets for Trace_Tsig
 //	tsig judge  <trace.ndjson> <spec.ndjson> second pass: the octets Trace_Tsig put into the HMAC -> crypto/hmac,
 //	                                         compared with the real MACs and verdicts
 //
@@ -26,6 +31,7 @@ import (
 	"os"
 	"strconv"
 	"strings"
+	"sync"
 	"time"
 
 	"github.com/miekg/dns"
@@ -763,6 +769,10 @@ func (t *tsigFields) build() []byte {
 }
 
 func record(which, out string, n int) {
+	if which == "server" {
+		recordServer(out, n)
+		return
+	}
 	if which != "alter" {
 		hx.Die("unknown recorder %q", which)
 	}
@@ -1078,5 +1088,205 @@ func reverify(in, out string) {
 		}
 		w.Emit(e)
 	})
+	sum.Print()
+}
+
+// ---------------------------------------------------------------- record: the server side
+
+const srvKey = "srv.example."
+
+// recordServer observes ResponseWriter.TsigStatus and response.WriteMsg.  Every transaction is validated from
+// scratch by Trace_Tsig: "q" starts a session on the MAC of THAT request, its first response must carry a MAC over
+// request MAC + message + full variables, later ones over the previous MAC + timers.  The response object of a TCP
+// connection outlives the request, so the transactions of one connection show whether its TSIG state restarts.
+func recordServer(out string, n int) {
+	rnd := hx.Rand()
+	w := hx.NewWriter(out)
+	defer w.Close()
+	var sum hx.Summary
+	secret := b64(secrets[1])
+	tab := map[string]int{srvKey: 1}
+	algs := []string{dns.HmacSHA1, dns.HmacSHA224, dns.HmacSHA256, dns.HmacSHA384, dns.HmacSHA512}
+
+	type seen struct {
+		err    error
+		signed bool
+	}
+	var mu sync.Mutex
+	status := map[uint16]seen{} // by request ID (unique per recorder run)
+	answers := func(q *dns.Msg) int { // messages the handler writes for a verified request
+		switch {
+		case q.Question[0].Qtype == dns.TypeAXFR:
+			return 3
+		case strings.HasPrefix(q.Question[0].Name, "multi"):
+			return 2 + int(q.Id%3)
+		}
+		return 1
+	}
+	handler := dns.HandlerFunc(func(rw dns.ResponseWriter, req *dns.Msg) {
+		ts := req.IsTsig()
+		st := rw.TsigStatus()
+		mu.Lock()
+		status[req.Id] = seen{st, ts != nil}
+		mu.Unlock()
+		verified := ts != nil && st == nil
+		reply := func(i int) *dns.Msg {
+			m := new(dns.Msg)
+			m.SetReply(req)
+			m.Answer = []dns.RR{rr(fmt.Sprintf("%s 60 IN TXT \"answer %d\"", req.Question[0].Name, i))}
+			if verified {
+				m.SetTsig(ts.Hdr.Name, ts.Algorithm, 300, time.Now().Unix())
+			}
+			return m
+		}
+		switch {
+		case !verified:
+			m := reply(0)
+			m.Rcode = dns.RcodeRefused
+			rw.WriteMsg(m)
+		case req.Question[0].Qtype == dns.TypeAXFR:
+			ch := make(chan *dns.Envelope)
+			done := make(chan error, 1)
+			go func() { done <- new(dns.Transfer).Out(rw, req, ch) }()
+			soa := rr("example. 60 IN SOA ns.example. host.example. 9 3600 600 86400 60")
+			ch <- &dns.Envelope{RR: []dns.RR{soa, rr("a.example. 60 IN A 192.0.2.1")}}
+			ch <- &dns.Envelope{RR: []dns.RR{rr("b.example. 60 IN A 192.0.2.2")}}
+			ch <- &dns.Envelope{RR: []dns.RR{rr("c.example. 60 IN A 192.0.2.3"), soa}}
+			close(ch)
+			<-done
+		case strings.HasPrefix(req.Question[0].Name, "multi"):
+			for i := 0; i < answers(req); i++ { // what Transfer.Out does, by hand
+				rw.WriteMsg(reply(i))
+				rw.TsigTimersOnly(true)
+			}
+		default:
+			rw.WriteMsg(reply(0))
+		}
+	})
+
+	ln := pipe.NewListener()
+	tcp := &dns.Server{Listener: ln, Handler: handler, TsigSecret: map[string]string{srvKey: secret}}
+	pc := pipe.NewPacketConn()
+	udp := &dns.Server{PacketConn: pc, Handler: handler, TsigProvider: dns.VerifTsigSecretProvider(map[string]string{srvKey: secret})}
+	for _, srv := range []*dns.Server{tcp, udp} {
+		started := make(chan struct{})
+		srv.NotifyStartedFunc = func() { close(started) }
+		go srv.ActivateAndServe()
+		<-started
+	}
+	defer tcp.Shutdown()
+	defer udp.Shutdown()
+
+	idx := 0
+	nextID := uint16(rnd.Intn(1000))
+	// one transaction: build the request, hand it to `send', read `want' responses with `recv'
+	transact := func(what string, send func([]byte) error, recv func() ([]byte, error), kinds []string) bool {
+		kind := kinds[rnd.Intn(len(kinds))]
+		variant := []string{"signed", "signed", "signed", "signed", "badsecret", "unsigned"}[rnd.Intn(6)]
+		alg := algs[rnd.Intn(len(algs))]
+		q := new(dns.Msg)
+		switch kind {
+		case "axfr":
+			q.SetAxfr("example.")
+		case "multi":
+			q.SetQuestion(fmt.Sprintf("multi%d.example.", rnd.Intn(100)), dns.TypeTXT)
+		default:
+			q.SetQuestion(fmt.Sprintf("single%d.example.", rnd.Intn(100)), dns.TypeTXT)
+		}
+		nextID++
+		q.Id = nextID
+		want := 1
+		if variant == "signed" {
+			want = answers(q)
+		}
+		now := uint64(time.Now().Unix())
+		var qo []byte
+		var err error
+		if variant == "unsigned" {
+			qo, err = q.Pack()
+		} else {
+			q.SetTsig(srvKey, alg, 300, int64(now))
+			sec := secret
+			if variant == "badsecret" {
+				sec = b64(secrets[2])
+			}
+			qo, _, err = dns.TsigGenerate(q, sec, "", false)
+		}
+		if err != nil {
+			hx.Die("request: %v", err)
+		}
+		if err := send(qo); err != nil {
+			hx.Die("send request: %v", err)
+		}
+		var msgs [][]byte
+		for len(msgs) < want {
+			p, err := recv()
+			if err != nil {
+				break
+			}
+			msgs = append(msgs, p)
+		}
+		sum.Evaluations++
+		mu.Lock()
+		st, ok := status[q.Id]
+		mu.Unlock()
+		desc := fmt.Sprintf("%s: %s %s request (%s)", what, variant, kind, alg)
+		if !ok {
+			sum.Mis("tsig/server:handler-not-called", desc, hx.FromBytes(qo))
+			return false
+		}
+		// (1) ResponseWriter.TsigStatus: verified = the request carries a TSIG and the status is nil
+		idx++
+		w.Emit(verifyEv{Ev: "verify", I: idx, What: "status, " + desc, Octets: hx.FromBytes(qo), Reqmac: hx.B{}, Now: limbs(now),
+			Via: "server", Secrets: tab, Got: errText(st.err), Signed: st.signed})
+		// (2) the responses: a session that starts on this request
+		w.Emit(verifyEv{Ev: "q", I: 0, What: desc, Octets: hx.FromBytes(qo), Reqmac: hx.B{}, Now: limbs(now), Secrets: tab})
+		if variant == "signed" {
+			for k, p := range msgs {
+				idx++
+				w.Emit(verifyEv{Ev: "env", I: idx, What: fmt.Sprintf("response %d of %d, %s", k+1, want, desc), Octets: hx.FromBytes(p), Reqmac: hx.B{},
+					Now: limbs(uint64(time.Now().Unix())), Via: "server-out", Secrets: tab})
+			}
+		}
+		if len(msgs) != want {
+			sum.Mis("tsig/server:responses-missing", fmt.Sprintf("%s: %d of %d responses arrived", desc, len(msgs), want), hx.FromBytes(qo))
+			return false
+		}
+		return true
+	}
+
+	for c := 0; c < n; c++ {
+		// a TCP connection with two to five transactions
+		conn, err := ln.Dial()
+		if err != nil {
+			hx.Die("dial: %v", err)
+		}
+		for k, nreq := 0, 2+rnd.Intn(4); k < nreq; k++ {
+			conn.SetDeadline(time.Now().Add(20 * time.Second))
+			ok := transact(fmt.Sprintf("tcp, transaction %d of %d on its connection", k+1, nreq),
+				func(p []byte) error { _, err := conn.Write(pipe.Frame(p)); return err },
+				func() ([]byte, error) { return pipe.ReadFrame(conn) },
+				[]string{"single", "multi", "axfr"})
+			if !ok {
+				break
+			}
+		}
+		conn.Close()
+		// datagrams: one transaction at a time, so that responses are attributed to their request
+		for k := 0; k < 2; k++ {
+			transact("udp",
+				func(p []byte) error { pc.Deliver(p); return nil },
+				func() ([]byte, error) {
+					select {
+					case p := <-pc.Out:
+						return p, nil
+					case <-time.After(20 * time.Second):
+						return nil, os.ErrDeadlineExceeded
+					}
+				},
+				[]string{"single", "single", "multi"})
+		}
+	}
+	sum.Nontrivial = idx
 	sum.Print()
 }
